@@ -29,7 +29,7 @@ def run(ctx):
     # sibling comparison of the two step functions (event abstraction: ordered repo-local calls on the wrapped object)
     def abstraction(s):
         out = []
-        for c in sorted(s.q.calls(), key=lambda c: c.b):
+        for c in s.q.ordered(s.q.calls()):
             if s.on_obj(c):
                 out.append(c.name.replace("reset_trade_vols", "reset_trade_vol").replace("get_trade_vols", "get_trade_vol"))
         return out
@@ -147,9 +147,27 @@ def step_rules(ctx, m, owner, s):
                   "per-item processing is conditional: set_time [%s], process_event [%s]" % (in_loop[0].gtext(), pe[0].gtext()))
         inner = [h for h in q.body.loop_heads() if h != s.head and h in s.body]
         ctx.check(not inner, "apply", tag + "|no-inner-loop", ctx.loc(f), "no nested loop inside the processing loop")
-    ok = len(after) == 1 and is_sum(after[0].args[1], lambda e: fld(e, "step_size") and field_chain(e)[0][0] == "param") \
+    step_field = {}
+
+    def is_step_len(e):
+        """a field of self that `new` initialises from its `step_size` parameter and nothing else writes"""
+        root, names = field_chain(e)
+        if root != ("param", 1, "self") or len(names) != 1:
+            return False
+        newf = [g for g in ctx.prog.find(crate="bourse_de", adt=owner, name="new")]
+        if len(newf) != 1:
+            return False
+        r = m.q(newf[0]).ret()
+        agg = [x for x in walk(r) if x[0] == "agg" and x[1] == "adt" and x[2].endswith(owner + "::" + owner)]
+        if not agg:
+            return False
+        v = dict(zip(agg[0][4], agg[0][3])).get(names[0])
+        writers = [w for g in ctx.prog.find(crate="bourse_de", adt=owner) for w in m.q(g).writes(field=names[0]) if w.root == ("param", 1, "self")]
+        step_field["name"] = names[0]
+        return v is not None and v[0] == "param" and v[2] == "step_size" and not writers
+    ok = len(after) == 1 and is_sum(after[0].args[1], is_step_len) \
         and all(a[0] == "variant" and a[2] == ("None",) for a in after[0].guards)
-    ctx.check(ok, "clock", tag + "|jump", after[0].loc() if after else ctx.loc(f), "after the loop the clock is set to start + self.step_size, once",
+    ctx.check(ok, "clock", tag + "|jump", after[0].loc() if after else ctx.loc(f), "after the loop the clock is set to start + the configured step size (self.%s), once" % step_field.get("name", "?"),
               "post-loop clock writes: %s" % "; ".join(c.text() for c in after))
     ctx.check(len(s.resets) == 1 and not s.resets[0].guards and q.body.dominates(s.resets[0].b, s.head), "reset", tag, s.resets[0].loc() if s.resets else ctx.loc(f),
               "the traded-volume reset runs once before the loop", "traded-volume reset missing / conditional / after the loop")
